@@ -1,12 +1,13 @@
 (* C13/QueueRefine.v — every operation of the ring-buffer model refines the byte deque,
    never faults and keeps the invariant; lifted to all histories. *)
-From MptV Require Import Base.Mem C13.QueueModel C13.QueueSpec C13.QueueProofs C13.QueueAlign C13.QueueFind.
+From MptV Require Import Base.Mem C13.QueueModel C13.QueueSpec C13.QueueProofs C13.QueueAlign C13.QueueFind
+  C13.IoQueueProofs.
 Local Open Scope nat_scope.
 
 Definition step_ok (q : queue) (o : qop) : Prop :=
   let '(q', out) := qstep q o in
   out <> OFault /\ qinv q' /\
-  sstep (abs q) o (accepted out) (err_of out) = (abs q', out).
+  sstep (abs q) o (accepted out) (err_of out) (len_of out) = (abs q', out).
 
 Lemma abs_len q : qinv q -> length (sc (abs q)) = qlen q.
 Proof. intros Hq. unfold abs; cbn [sc]. apply contents_length. assumption. Qed.
@@ -137,6 +138,109 @@ Proof.
     unfold abs. rewrite Hc, Hm. reflexivity.
 Qed.
 
+(* ---- mpt++ io::queue ---- *)
+Lemma step_ioprepare q n f : qinv q -> step_ok q (OpIoPrepare n f).
+Proof.
+  intros Hq. unfold step_ok, qstep, lift1.
+  destruct (ioprepare_spec q n f Hq) as (q' & -> & Hq' & Hm & Hc).
+  split; [discriminate|]. split; [assumption|]. cbn [sstep]. rewrite (abs_len q Hq).
+  unfold abs. cbn [sc scap]. rewrite Hc, Hm. reflexivity.
+Qed.
+
+Lemma step_iopush q d f : qinv q -> step_ok q (OpIoPush d f).
+Proof.
+  intros Hq. unfold step_ok, qstep, lift1. pose proof (iopush_spec q d f Hq) as H. cbn zeta in H.
+  unfold sstep. rewrite (abs_len q Hq). cbn [abs sc scap].
+  destruct ((length d <=? grow_cap (qmax q) (qlen q) (length d) - qlen q)
+            && negb (grow_cap (qmax q) (qlen q) (length d) - qlen q =? 0)).
+  - destruct H as (q' & -> & Hq' & Hm & Hc). split; [discriminate|]. split; [assumption|].
+    unfold abs. rewrite Hc, Hm. reflexivity.
+  - destruct H as (e & ->). refused. reflexivity.
+Qed.
+
+Lemma step_iounshift q d f : qinv q -> step_ok q (OpIoUnshift d f).
+Proof.
+  intros Hq. unfold step_ok, qstep, lift1. pose proof (iounshift_spec q d f Hq) as H. cbn zeta in H.
+  unfold sstep. rewrite (abs_len q Hq). cbn [abs sc scap].
+  destruct ((length d <=? grow_cap (qmax q) (qlen q) (length d) - qlen q)
+            && negb (grow_cap (qmax q) (qlen q) (length d) - qlen q =? 0)).
+  - destruct H as (q' & -> & Hq' & Hm & Hc). split; [discriminate|]. split; [assumption|].
+    unfold abs. rewrite Hc, Hm. reflexivity.
+  - destruct H as (e & ->). refused. reflexivity.
+Qed.
+
+Lemma step_iopop q n h : qinv q -> step_ok q (OpIoPop n h).
+Proof.
+  intros Hq. unfold step_ok, qstep. unfold sstep. rewrite (abs_len q Hq). cbn [abs sc scap].
+  destruct h.
+  - unfold lift2. pose proof (qpop_spec q n true Hq) as H.
+    destruct (Nat.leb_spec n (qlen q)) as [Hn|Hn].
+    + destruct H as [->|(Hf & _)]; [|discriminate].
+      split; [discriminate|]. pose proof Hq as (Hb & Hl & Ho).
+      split; [apply qinv_set_len; [assumption|lia]|].
+      unfold abs. rewrite contents_shrink by (assumption || lia). reflexivity.
+    + destruct H as (e & ->). refused. reflexivity.
+  - unfold lift1. pose proof (iopop0_spec q n Hq) as H.
+    destruct (Nat.leb_spec n (qlen q)) as [Hn|Hn].
+    + destruct H as (q' & -> & Hq' & Hm & Hc). split; [discriminate|]. split; [assumption|].
+      unfold abs. rewrite Hc, Hm. reflexivity.
+    + destruct H as (e & ->). refused. reflexivity.
+Qed.
+
+Lemma step_ioshift q n h : qinv q -> step_ok q (OpIoShift n h).
+Proof.
+  intros Hq. unfold step_ok, qstep. unfold sstep. rewrite (abs_len q Hq). cbn [abs sc scap].
+  destruct h.
+  - unfold lift2. pose proof (qshift_spec q n true Hq) as H.
+    destruct (Nat.leb_spec n (qlen q)) as [Hn|Hn].
+    + destruct H as [(q' & -> & Hq' & Hm & Hc)|(Hf & _)]; [|discriminate].
+      split; [discriminate|]. split; [assumption|]. unfold abs. rewrite Hc, Hm. reflexivity.
+    + destruct H as (e & ->). refused. reflexivity.
+  - unfold lift1. pose proof (qcrop_spec q 0 n Hq) as H. cbn [Nat.add] in H.
+    destruct (Nat.leb_spec n (qlen q)) as [Hn|Hn].
+    + destruct H as (q' & -> & Hq' & Hm & Hc). split; [discriminate|]. split; [assumption|].
+      unfold abs. rewrite Hc, Hm. reflexivity.
+    + destruct H as (e & ->). refused. reflexivity.
+Qed.
+
+Lemma step_iowrite q part elems f : qinv q -> step_ok q (OpIoWrite part elems f).
+Proof.
+  intros Hq. unfold step_ok, qstep, iowrite. unfold sstep. rewrite (abs_len q Hq). cbn [abs sc scap].
+  destruct (Nat.eqb_spec part 0) as [Hp|Hp].
+  - destruct (ioprepare_spec q (length elems) f Hq) as (q' & -> & Hq' & Hm & Hc). cbn [bind].
+    split; [discriminate|]. split; [assumption|]. unfold abs. rewrite Hc, Hm. reflexivity.
+  - destruct (ioprepare_spec q (part * length elems) f Hq) as (q1 & -> & Hq1 & Hm1 & Hc1). cbn [bind].
+    destruct (iowrite_loop_spec elems q1 0 Hq1) as (q' & k & -> & Hq' & Hm' & Hs).
+    split; [discriminate|]. split; [assumption|].
+    rewrite <- Hm1, <- Hc1, Hs. unfold abs. rewrite Hm'. reflexivity.
+Qed.
+
+Lemma step_ioread q cnt part : qinv q -> step_ok q (OpIoRead cnt part).
+Proof.
+  intros Hq. unfold step_ok, qstep. unfold sstep. cbn [abs sc scap].
+  destruct (ioread_loop_spec part cnt q 0 [] Hq) as (q' & k & d & -> & Hq' & Hm' & Hs).
+  split; [discriminate|]. split; [assumption|]. rewrite Hs. unfold abs. rewrite Hm'. reflexivity.
+Qed.
+
+Lemma step_iopeek q n : qinv q -> step_ok q (OpIoPeek n).
+Proof.
+  intros Hq. unfold step_ok, qstep, lift2.
+  destruct (iopeek_spec q n Hq) as (q' & d & -> & Hq' & Hm & Hc & Hd & Hle & Hlong).
+  split; [discriminate|]. split; [assumption|].
+  unfold sstep. rewrite (abs_len q Hq). cbn [abs sc scap len_of].
+  destruct (Nat.leb_spec (length d) (qlen q)) as [_|Hx]; [|lia]. cbn [andb].
+  assert (E : ((if n =? 0 then qlen q else n) <=? length d) || (length d =? qlen q) = true).
+  { apply orb_true_iff. destruct Hlong as [Hl|Hl]; [left; apply Nat.leb_le|right; apply Nat.eqb_eq]; assumption. }
+  rewrite E. unfold abs. rewrite Hc, Hm, <- Hd. reflexivity.
+Qed.
+
+Lemma step_ionew q n f : qinv q -> step_ok q (OpIoNew n f).
+Proof.
+  intros Hq. unfold step_ok, qstep, lift1.
+  destruct (ionew_spec q n f Hq) as (q' & -> & Hq' & Hm & Hc).
+  split; [discriminate|]. split; [assumption|]. cbn [sstep]. unfold abs. rewrite Hc, Hm. reflexivity.
+Qed.
+
 Theorem qstep_refines q o : qinv q -> step_ok q o.
 Proof.
   intros Hq. destruct o.
@@ -152,6 +256,15 @@ Proof.
   - apply step_prepare; assumption.
   - apply step_find; assumption.
   - apply step_string; assumption.
+  - apply step_ioprepare; assumption.
+  - apply step_iopush; assumption.
+  - apply step_iounshift; assumption.
+  - apply step_iopop; assumption.
+  - apply step_ioshift; assumption.
+  - apply step_iowrite; assumption.
+  - apply step_ioread; assumption.
+  - apply step_iopeek; assumption.
+  - apply step_ionew; assumption.
 Qed.
 
 (* every history: same outputs, same bytes, same capacity as the deque; no fault *)
@@ -177,6 +290,29 @@ Proof.
   destruct (qstep q o) as [q' out]. destruct H as (Hnf & Hq' & Hs). cbn [fst snd]. intros Ha.
   destruct o; cbn [qstep] in *;
   destruct out; try discriminate; try contradiction;
-  unfold sstep in Hs; repeat match type of Hs with context [if ?c then _ else _] => destruct c end;
+  unfold sstep in Hs;
+  repeat match type of Hs with
+         | context [swrite ?a ?b ?c ?d] => destruct (swrite a b c d)
+         | context [sread ?a ?b ?c ?d ?e] => destruct (sread a b c d e) as [? [? ?]]
+         | context [if ?c then _ else _] => destruct c
+         end;
   try discriminate; inversion Hs; split; reflexivity.
+Qed.
+
+(* io::queue::write (as patched) stores every element it is given and reports all of them *)
+Lemma iowrite_complete q part elems f : qinv q -> 0 < part ->
+  Forall (fun e => length e = part) elems ->
+  exists q', qstep q (OpIoWrite part elems f) = (q', OCount (length elems) []) /\
+    contents q' = contents q ++ concat elems.
+Proof.
+  intros Hq Hp Hall. pose proof (step_iowrite q part elems f Hq) as H. unfold step_ok in H.
+  destruct (qstep q (OpIoWrite part elems f)) as [q' out]. destruct H as (_ & Hq' & Hs).
+  unfold sstep in Hs. destruct (Nat.eqb_spec part 0); [lia|].
+  cbn [abs sc scap] in Hs. pose proof Hq as (Hb & Hl & Ho).
+  rewrite (swrite_all part Hp) in Hs.
+  - inversion Hs. exists q'. split; [reflexivity|]. symmetry. assumption.
+  - assumption.
+  - rewrite contents_length by assumption.
+    pose proof (grow_cap_room (qmax q) (qlen q) (part * length elems) Hl).
+    pose proof (grow_cap_ge (qmax q) (qlen q) (part * length elems) Hl). lia.
 Qed.
